@@ -38,6 +38,7 @@ Proof.
   intros a. split; [|reflexivity]. destruct (a_kind a) eqn:E; try exact I.
   - left. unfold expected_att, expected_rows. cbn [da_rows]. rewrite E. reflexivity.
   - right. congruence.
+  - right. congruence.   (* KNormal: quantized normals (lossy, see C07) *)
 Qed.
 Print Assumptions C01_unquantized_values_identical.
 
